@@ -84,7 +84,7 @@ impl Pool {
                         #[cfg(feature = "tracing")]
                         let mut created = 0;
                         for _ in count..(min_idle as usize) {
-                            let conn = match pool.client.connection() {
+                            let mut conn = match pool.client.connection() {
                                 Ok(conn) => conn,
                                 Err(err) => {
                                     #[cfg(feature = "tracing")]
@@ -98,13 +98,21 @@ impl Pool {
 
                             #[cfg(feature = "verif-hooks")]
                             crate::verif_hooks::point("maint.push.lock");
-                            let mut connections = pool.connections.lock().unwrap();
-                            let Some(connections) = connections.as_mut() else {
+                            let mut connections_guard = pool.connections.lock().unwrap();
+                            let Some(connections) = connections_guard.as_mut() else {
                                 // The transport was shut down
                                 return;
                             };
 
+                            if connections.len() >= pool.config.max_size as usize {
+                                // The pool is full, min_idle can't be reached
+                                drop(connections_guard);
+                                conn.abort();
+                                break;
+                            }
+
                             connections.push(ParkedConnection::park(conn));
+                            drop(connections_guard);
 
                             #[cfg(feature = "tracing")]
                             {
